@@ -9,6 +9,7 @@ import (
 	"io"
 	"io/ioutil"
 	"strings"
+	"time"
 
 	"github.com/dsnet/compress/xflate"
 	"github.com/dsnet/compress/xflate/internal/meta"
@@ -110,11 +111,33 @@ func assemble(chunks []xchunk, io_ idxOpts, magic string, fmode meta.FinalMode) 
 
 // ---- the oracle -------------------------------------------------------------------
 
+var c15Hangs int
+
 func c15Check(r *vhlib.Run, m *vhlib.Model, data []byte, kind string) {
 	replay := map[string]interface{}{"input": vhlib.Hex(data), "kind": kind}
 	r.Eval(kind, true, data)
 	var content []byte
 	accepted := false
+	// first of all: does reading it come to an end? (an input on which the Reader spins would stall
+	// every later step of this check; C08 owns the property, here it is reported and skipped)
+	if c15Hangs >= 2 {
+		return
+	}
+	fin := make(chan struct{})
+	go func() {
+		defer close(fin)
+		defer func() { recover() }()
+		if xr, err := xflate.NewReader(bytes.NewReader(data), nil); err == nil {
+			io.Copy(ioutil.Discard, io.LimitReader(xr, 1<<28))
+		}
+	}()
+	select {
+	case <-fin:
+	case <-time.After(20 * time.Second):
+		c15Hangs++
+		r.Violate("hang", fmt.Sprintf("xflate.Reader does not finish reading a %d-byte input within 20 s", len(data)), replay)
+		return
+	}
 	func() {
 		defer func() {
 			if p := recover(); p != nil {
